@@ -32,6 +32,9 @@ def run(ctx):
     ctx.rule("R11.h", "the type-change test is meaningful: no Parameter type whose own _validate_value tests the value with isinstance(val, <builtin type>) is a subclass of another such type "
                       "testing an unrelated builtin (str / bytes, ...): `issubclass(type(ancestor), type(new))` would call the re-declaration compatible and skip the re-validation of the "
                       "inherited default", floor=5)
+    ctx.rule("R11.n", "namespace model (shared with R13.h): ParameterizedMetaclass.__setattr__ / _clear_params_cache, Parameters.add_parameter and the _cls_parameters property interpreted abstractly on hierarchies of up to three levels and a diamond: after every class-level assignment, add_parameter or removal, `.param[name]` of every class of the hierarchy is the very Parameter object that governs attribute access there -- `D.param.x` of a class below a re-declaration shows the attributes merged for the nearest declaring class of D's MRO, not those of a farther ancestor", floor=1)
+    from checks import namespace_model
+    namespace_model.report(ctx, "R11.n")
     ctx.not_decided += ["hierarchies deeper than three levels and multiple-inheritance merges (the model is bounded; the search loop is the same code)",
                         "that the value allow_None is recomputed TO is the right one for each type (only that it is never left Undefined, R11.d)",
                         "that the validators themselves are right (C01)"]
